@@ -17,6 +17,7 @@ def fd_unit(abi):
     return Unit(name="c06.init_func_detail." + NAMES[abi], props=["C06"], tu=INST, roots=["asmjit::%s::FuncInternal::init_func_detail" % ns],
                 target="%s_FuncInternal_init_func_detail" % ns, contracts=ABI, defines=["VERIF_ABI=%d" % abi], unwind=34, quick_unwind=12, unwindset=["c_order_is.0:17"],
                 quick_defines=["VERIF_MAXARGS=10"], thorough_defines=["VERIF_MAXARGS=32"], object_bits=9, thorough_object_bits=(11 if abi <= 2 else None), mem_gb=36, timeout=1700, thorough_timeout=7200, replay="replay/c06_func_detail.cpp",
+                quick_kind="bounded", quick_bound_note="signatures of <= 10 arguments (the thorough tier unwinds the argument loops to the code's own limit of 32 arguments and is complete)",
                 note="given the ABI's CallConv record (what init_call_conv is proved to produce), every signature of integer/float/vector arguments; "
                      "argument loops bounded by the code's own kMaxFuncArgs = 32 (thorough: complete); quick checks signatures of <= 10 arguments")
 
